@@ -92,6 +92,11 @@ func complex128Decode(dec *Decoder, t reflect.Type, p unsafe.Pointer) {
 }
 
 func interfaceDecode(dec *Decoder, t reflect.Type, p unsafe.Pointer) {
+	if t.NumMethod() > 0 {
+		// a slot of a non-empty interface type has another layout than interface{}
+		dec.decodeNonEmptyInterface(t, dec.NextByte(), p)
+		return
+	}
 	dec.decodeInterface(dec.NextByte(), (*interface{})(p))
 }
 
@@ -164,6 +169,10 @@ func complex128PtrDecode(dec *Decoder, t reflect.Type, p unsafe.Pointer) {
 }
 
 func interfacePtrDecode(dec *Decoder, t reflect.Type, p unsafe.Pointer) {
+	if t.Elem().NumMethod() > 0 {
+		dec.decodeNonEmptyInterfacePtr(t, dec.NextByte(), p)
+		return
+	}
 	dec.decodeInterfacePtr(dec.NextByte(), (**interface{})(p))
 }
 
